@@ -17,3 +17,4 @@ import Anonymongo.Props.Facts.Inits
 import Anonymongo.Props.Facts.Footprint
 import Anonymongo.Props.Facts.AtlasReq
 import Anonymongo.Props.Facts.Vocabulary
+import Anonymongo.Props.Facts.Regex
